@@ -237,6 +237,9 @@ def check_fixed(rec):
         (['S!A1:D1'], ['S!A3'], [('S!A1:D1', [[5, 6, 7, 8]])]),
         (['S!A1', 'S!B2'], ['S!A3', 'S!B2'], [('S!A1', 9), ('S!B2', 50)]),
         (['S!A2'], ['S!A3'], [('S!A2', 100)]),
+        # an input range that no formula reads as a range (its cells are
+        # read one by one, and through a larger range)
+        (['S!C1:D1'], ['S!A3'], [('S!C1:D1', [[30, 40]])]),
     ]
     for inputs, outputs, writes in scenarios:
         case = dict(kind='fixed', inputs=inputs, outputs=outputs)
